@@ -1486,6 +1486,24 @@ func (m *Monitors) c20State(n *Node, pre, post *raft.VerifState, c *Cause) {
 // ------------------------------------------------------------------ C09 deliver
 
 func (m *Monitors) c09Deliver(n *Node, pre, post *raft.VerifState, c *Cause) {
+	// leader bookkeeping after a reported snapshot outcome: the follower is
+	// probed again, from Match+1 after a failure, from the snapshot index + 1
+	// after success
+	if c.Kind == "reportsnap" && c.Msg != nil && m.On["C09"] && pre.State == raft.StateLeader && post.State == raft.StateLeader {
+		to := c.Msg.GetFrom()
+		if pp, qp := n.progressOf(pre, to), n.progressOf(post, to); pp != nil && qp != nil && pp.State == tracker.StateSnapshot {
+			want := pp.Match + 1
+			if !c.Msg.GetReject() && pp.PendingSnapshot+1 > want {
+				want = pp.PendingSnapshot + 1
+			}
+			m.s.Stats.inc("snap.outcome_reported")
+			if qp.State != tracker.StateProbe || qp.Next != want {
+				m.viol([]string{"C09"}, "probe_after_snapshot_outcome", "c09.bad_progress_after_report",
+					"leader %d: ReportSnapshot(%d, failure=%v) with match %d pending %d left the progress in %v next %d, expected StateProbe next %d",
+					n.ID, to, c.Msg.GetReject(), pp.Match, pp.PendingSnapshot, qp.State, qp.Next, want)
+			}
+		}
+	}
 	if c.Kind != "deliver" || c.Flight.M.GetType() != pb.MsgSnap {
 		return
 	}
